@@ -13,7 +13,8 @@ RULE = ('random runnable models mixing registered Linear/Conv2d layers with unsu
         'bit-exact snapshots of every parameter, buffer and gradient (value, shape, dtype, device, contiguity, storage '
         'identity for unregistered ones) before/after step(); K-FAC state before/after eval-mode passes; outputs and '
         'autograd gradients of a deep-copied model without K-FAC; the set of gradients that changed is compared with the '
-        'write set predicted by the Lean registration model; non-trivial = ≥1 registered and ≥1 unregistered parametrised module')
+        'write set predicted by the Lean registration model; non-trivial = ≥1 registered and ≥1 unregistered parametrised module'
+        '; inputs cloned and compared (aliasing), 1x1 / single-channel / channels_last convolutions, an empty-batch iteration, float16 factors with large activations, attribute names containing wrapper prefixes; the registered set is compared with the eligible set computed from the statement; autograd gradients compared up to rounding')
 TRUSTED = [
     'Lean 4.33 kernel; axioms audited ⊆ {propext, Classical.choice, Quot.sound}',
     'hand-written models: KV.Reg (which modules are registered = the write set) and KV.Precond/KV.Spec (eval passes are no-ops)',
